@@ -23,6 +23,8 @@ class C26(Prop):
     CORR_MODULE = "Deploy.Corr"
     LEVEL = "proof"
     MAX_WORKERS = 8
+    MAX_WATCHDOG = 3
+    MIN_JUDGED = 0.97
     CASE_TIMEOUT = 60
     SHARD_TIMEOUT = 1500
     COQ_SHARD = 150
@@ -255,9 +257,13 @@ class C26(Prop):
                 return ["f", -1 if r is None else r.cid]
             return ["r", c.cid]
 
+        w["spans"] = []
+
         async def req(tid, ops):
             for j, op in enumerate(ops):
                 c = None
+                span = [tid, j, op, len(loop.trace) - 1, None]     # first / last scheduler step of this op
+                w["spans"].append(span)
                 try:
                     if op[0] == "D":
                         await mgr.deploy(cfg(op[1]))
@@ -272,8 +278,10 @@ class C26(Prop):
                 except Exception as e:  # noqa
                     nm = next((nm for cls, nm in k.errs if type(e) is cls), "crash:" + type(e).__name__)
                     w["log"].append(["ret", tid, j, nm, info(op[1], c, op[0] == "X") if len(op) > 1 else ["n"]])
+                    span[4] = len(loop.trace) - 1
                     return
                 w["log"].append(["ret", tid, j, "ok", info(op[1], c, op[0] == "X") if len(op) > 1 else ["n"]])
+                span[4] = len(loop.trace) - 1
 
         rng = random.Random(case.get("seed", 0))
         loop = k.PickLoop(k.make_picker(case.get("sched"), rng))
@@ -293,6 +301,7 @@ class C26(Prop):
                 obs["hang2"] = [i for i, t in enumerate(loop.tasks) if not t.done()]
                 obs["end"] = [info(i) for i in range(nd)]
                 obs["overrun"] = loop.overrun
+            obs["spans"] = [list(x) for x in w["spans"]]
             for t in loop.tasks:
                 if not t.done():
                     t.cancel()
@@ -313,8 +322,13 @@ class C26(Prop):
     def _judge(self, case, obs):
         """(clause, input class, message) or None.  Judged from the property text on the call log alone."""
         if obs.get("hang") is True and "rc" in obs:
-            return None     # worker killed by the shard watchdog (machine overload): no verdict on this case; a case
-                            # that hangs by itself is stopped by the per-case alarm and reported below
+            # worker killed by the shard watchdog (machine overload): no verdict on this case (a case that hangs by
+            # itself is stopped by the per-case alarm and reported below) -- but only a few times per check
+            seen = self.__dict__.setdefault("_wd_seen", set())
+            seen.add(id(obs))
+            if len(seen) > self.MAX_WATCHDOG:
+                return ("harness-watchdog", "any", f"{len(seen)} cases lost to worker-level watchdog kills")
+            return None
         if "crash" in obs or "hang" in obs or obs.get("overrun"):
             return ("crash", "harness", f"harness-level crash/hang/overrun: {str(obs)[:300]}")
         deps = case["deps"]
@@ -326,9 +340,9 @@ class C26(Prop):
         live = ("deploying", "deployed")
         failed_any = any((e[0] == "de" and not e[2]) or (e[0] == "ret" and e[3] in ("Def", "Dep")) for e in log)
         fcls = "after-failed-deployment" if failed_any else "no-failure"
-        # teardown class: did any undeploy / undeploy_all request run concurrently with the other requests, or is
-        # the only teardown the final, sequential undeploy_all?
-        conc = any(op[0] in "UA" for ops in case["reqs"] for op in ops)
+        # teardown class, from the TRACE: did the stretch of an undeploy / undeploy_all operation overlap (in
+        # scheduler steps) the stretch of a deploy / use operation of another request on the same wraps chain?
+        conc = self._overlap(case, obs)
         tcls = "undeploy-concurrent-with-deploy" if conc else \
             ("sequential-teardown-" + fcls if failed_any else "sequential-teardown")
         live_at_final = None
@@ -403,6 +417,33 @@ class C26(Prop):
                 return ("all-once", tcls,
                         f"after the final undeploy_all the manager still registers {obs['end']}")
         return None
+
+    @staticmethod
+    def _overlap(case, obs):
+        deps = case["deps"]
+        comp = list(range(len(deps)))            # wraps-connected components
+        def find(i):
+            while comp[i] != i:
+                i = comp[i]
+            return i
+        for i, d in enumerate(deps):
+            if d["wraps"] is not None and d["wraps"] < len(deps):
+                comp[find(i)] = find(d["wraps"])
+        spans = obs.get("spans") or []
+        inf = 1 << 60
+        for a in spans:
+            if a[2][0] not in "UA":
+                continue
+            for b in spans:
+                if b[2][0] not in "DX" or b[0] == a[0]:
+                    continue
+                if a[2][0] == "U" and find(a[2][1]) != find(b[2][1]):
+                    continue
+                a0, a1 = a[3], inf if a[4] is None else a[4]
+                b0, b1 = b[3], inf if b[4] is None else b[4]
+                if a0 <= b1 and b0 <= a1:
+                    return True
+        return False
 
     # ------------------------------------------------------------------ model side
     def _ev(self, e):
@@ -509,7 +550,10 @@ PROP.LEVEL_TEXT = (
     "with a one-task-step-at-a-time event loop and requiring the model, fed the same schedule, to reproduce the exact "
     "connector call log, request outcomes and set of blocked tasks.")
 PROP.LEVEL_NOTE = (
-    "Trusted: Coq kernel + vm_compute; the hand-written model (tied to the code only by the correspondence run); asyncio "
+    "Model fidelity: the executable model cuts an atomic stretch after fuel0=2000 micro-steps (state marked bad); the "
+    "unbounded theorems are about the log of every model execution and do not conclude bad=false (witness: "
+    "C26_fuel_cut_refuted); the bounded families and the correspondence run do. The depth-40 chain family is a single "
+    "run per depth. Trusted: Coq kernel + vm_compute; the hand-written model (tied to the code only by the correspondence run); asyncio "
     "semantics assumed by the model (Event, sleep(0), gather, atomicity between awaits); the controlled event loop and "
     "fake connectors. Missing for a full proof: an inductive invariant over the frame stacks of all tasks (general "
     "return_after / wrap_order / once-for-eager); wraps=None (__LOCAL__) is outside the model. No axioms.")
